@@ -24,7 +24,7 @@ func TestMain(m *testing.M) {
 		Property: "C17", Level: "fault_enumeration",
 		Rule: "rapid draws a trie content (1..14 prefix-sharing keys, built by a history with deletes) at version v0 in a memory store. For each content the fault sets are ENUMERATED: every single reachable non-root node removed, every whole subtree removed, plus drawn scattered subsets; each damaged store is opened by a fresh trie (fresh cache) at version v0, v0+1 or v0+5. " +
 			"Oracle: the harness's own walker over the damaged store gives M = absent keys referenced by present reachable nodes; HasMissingNodes = (M non-empty), GetAllMissingNodes = M as a set, lookups of keys below an absent node fail and all others return the model value, Iterate errs iff M non-empty and yields only model values; then MergeDB from a donor holding exactly the removed nodes (or the whole original store) must give a store on which a fresh trie has no missing nodes, the model content and the same root, with every donor entry byte-identical to its pre-merge snapshot. " +
-			"One evaluation = one (content, removal set, version, donor mode). Non-trivial = removal contains an interior node and the trie version differs from the node origins, or >=2 disjoint subtrees are removed; distinct = distinct (content, removal set, version).",
+			"In a third of the scenarios the nodes vanish under a long-lived trie that has read all of its content (warm node cache): detection then goes through CloneMPT of it and the long-lived trie performs the repair. One evaluation = one (content, removal set, version, donor mode). Non-trivial = removal contains an interior node and the trie version differs from the node origins, or >=2 disjoint subtrees are removed; distinct = distinct (content, removal set, version).",
 		Assumptions: []string{"nodes are removed from a MemoryNodeDB copy; the root node itself is never removed (the property quantifies over non-root nodes)", "the damaged store is opened with a fresh state cache, otherwise cached nodes hide the removal"},
 	})
 	ev.Main(m)
@@ -62,16 +62,38 @@ func keysOf(m map[string]bool) []string {
 
 // runScenario checks detection and repair for one removal set.
 func runScenario(t fataler, full *util.MemoryNodeDB, root []byte, model map[string][]byte, removed map[string]bool, version int64, donorMode string, desc func() string) {
+	runScenarioW(t, full, root, model, removed, version, donorMode, false, desc)
+}
+
+// warm: the nodes vanish from the store of a long-lived trie that has read all of its content before (its node cache
+// still holds them). Detection then goes through CloneMPT of that trie (a clone answers from the store), the repair is
+// done by the long-lived trie itself.
+func runScenarioW(t fataler, full *util.MemoryNodeDB, root []byte, model map[string][]byte, removed map[string]bool, version int64, donorMode string, warm bool, desc func() string) {
 	damaged := copyDB(full, removed)
+	var long *util.MerklePatriciaTrie
+	open := func() *util.MerklePatriciaTrie { return mptkit.NewTrie(damaged, version, root) }
+	if warm {
+		damaged = copyDB(full, nil)
+		long = mptkit.NewTrie(damaged, version, root)
+		if c, err := mptkit.Content(long); err != nil || !mptkit.EqualContent(c, model) {
+			t.Fatalf("%s: HARNESS: long-lived trie reads %s (%v) before the damage", desc(), mptkit.Show(c), err)
+		}
+		for k := range removed {
+			if err := damaged.DeleteNode(util.Key(k)); err != nil {
+				t.Fatalf("%s: HARNESS: DeleteNode: %v", desc(), err)
+			}
+		}
+		open = func() *util.MerklePatriciaTrie { return util.CloneMPT(long) }
+	}
 	w := refmpt.WalkFrom(root, mptkit.GetterOf(damaged), false)
 	M := w.Missing
-	mpt := mptkit.NewTrie(damaged, version, root)
+	mpt := open()
 
 	has, err := mpt.HasMissingNodes(context.Background())
 	if err != nil || has != (len(M) > 0) {
 		t.Fatalf("%s: HasMissingNodes = %v, %v; walker finds %d missing", desc(), has, err, len(M))
 	}
-	all, err := mptkit.NewTrie(damaged, version, root).GetAllMissingNodes()
+	all, err := open().GetAllMissingNodes()
 	if err != nil {
 		t.Fatalf("%s: GetAllMissingNodes: %v", desc(), err)
 	}
@@ -90,7 +112,7 @@ func runScenario(t fataler, full *util.MemoryNodeDB, root []byte, model map[stri
 		}
 		return false
 	}
-	lk := mptkit.NewTrie(damaged, version, root)
+	lk := open()
 	for p, want := range model {
 		v, err := lk.GetNodeValueRaw(util.Path(p))
 		if broken(p) {
@@ -111,7 +133,7 @@ func runScenario(t fataler, full *util.MemoryNodeDB, root []byte, model map[stri
 			}
 		}
 	}
-	it := mptkit.NewTrie(damaged, version, root)
+	it := open()
 	yielded := map[string][]byte{}
 	ierr := it.Iterate(context.Background(), func(ctx context.Context, path util.Path, key util.Key, node util.Node) error {
 		if vn, ok := node.(*util.ValueNode); ok {
@@ -151,8 +173,10 @@ func runScenario(t fataler, full *util.MemoryNodeDB, root []byte, model map[stri
 		return nil
 	})
 	rep := mptkit.NewTrie(damaged, version, root)
-	// the repairing trie has itself run into the absent nodes before the repair
-	if pre, err := rep.HasMissingNodes(context.Background()); err != nil || pre != (len(M) > 0) {
+	if warm {
+		rep = long
+	} else if pre, err := rep.HasMissingNodes(context.Background()); err != nil || pre != (len(M) > 0) {
+		// the repairing trie has itself run into the absent nodes before the repair
 		t.Fatalf("%s: repairing trie: HasMissingNodes before repair = %v, %v", desc(), pre, err)
 	}
 	for p := range model {
@@ -296,9 +320,17 @@ func TestMissingNodesAndRepair(t *testing.T) {
 			desc := func() string {
 				return fmt.Sprintf("ops %v v0=%d version=%d removed=%v (%s) donor=%s", ops, v0, version, keysOf(removed), kinds[i], donorMode)
 			}
-			runScenario(rt, full, root, model, removed, version, donorMode, desc)
+			warm := i%3 == 2
+			desc0 := desc
+			if warm {
+				desc = func() string { return desc0() + " [nodes vanish under a long-lived trie with a warm node cache]" }
+			}
+			runScenarioW(rt, full, root, model, removed, version, donorMode, warm, desc)
 			nt := (interior && version != v0) || tops >= 2
 			cls := []string{"removal:" + kinds[i], "donor:" + donorMode}
+			if warm {
+				cls = append(cls, "warm-long-lived-trie")
+			}
 			if version != v0 {
 				cls = append(cls, "version-differs")
 			} else {
